@@ -46,15 +46,18 @@ def uviDecodeU16 (bs : Bytes) : Except UviErr (Nat × Bytes) := uviDecodeAux 16 
 /-- `unsigned_varint::decode::usize` on a 64-bit target. -/
 def uviDecodeUsize (bs : Bytes) : Except UviErr (Nat × Bytes) := uviDecodeAux 64 9 0 0 bs
 
-/-- `b"/multistream/1.0.0"` -/
-def protoMultistream : Bytes :=
-  [47, 109, 117, 108, 116, 105, 115, 116, 114, 101, 97, 109, 47, 49, 46, 48, 46, 48]
+/-! The literal byte strings are extracted from `protocol.rs` into `Generated/Consts.lean` on every
+run (`CONST_TABLE` of `checks/c03.py`); what the proofs need of them is re-checked by `decide`
+(`Proofs/Mss/Message.lean`: `msgMultistream_eq`, …). -/
+
+/-- `PROTO_MULTISTREAM_1_0 = b"/multistream/1.0.0"` -/
+def protoMultistream : Bytes := Consts.MSS_PROTO_MULTISTREAM_1_0
 /-- `MSG_MULTISTREAM_1_0 = b"/multistream/1.0.0\n"` -/
-def msgMultistream : Bytes := protoMultistream ++ [10]
+def msgMultistream : Bytes := Consts.MSS_MSG_MULTISTREAM_1_0
 /-- `MSG_PROTOCOL_NA = b"na\n"` -/
-def msgNa : Bytes := [110, 97, 10]
+def msgNa : Bytes := Consts.MSS_MSG_PROTOCOL_NA
 /-- `MSG_LS = b"ls\n"` -/
-def msgLs : Bytes := [108, 115, 10]
+def msgLs : Bytes := Consts.MSS_MSG_LS
 
 /-- `Message` (there is one `HeaderLine`, `V1`). A `Protocol` is its byte string. -/
 inductive Msg
